@@ -69,3 +69,46 @@ def obligations(prop, replay=None):
                     r.replay = replay()
             out.append(r)
     return out
+
+
+def value_obligations(prop, module="ford.sourceform", replay=None):
+    """`name = value` pairs (PARAMETER statements, entity declarations) are cut at the *first* top-level `=` only - a value is an expression and may hold `==`, `<=`, `>=`, `/=`.
+    For every `S = paren_split("=", ..)` in the current source: the pieces after the first are joined back, `"=".join(S[1:])`, and no single later piece (`S[1]`, a `[:2]`
+    slice, a two-target unpacking) is taken for the value."""
+    _, tree = loader.module_source(module)
+    out = []
+    is_split = lambda v: isinstance(v, ast.Call) and (v.func.attr if isinstance(v.func, ast.Attribute) else getattr(v.func, "id", None)) == "paren_split" \
+        and len(v.args) == 2 and isinstance(v.args[0], ast.Constant) and v.args[0].value == "="
+    for fn in [x for x in ast.walk(tree) if isinstance(x, (ast.FunctionDef, ast.AsyncFunctionDef))]:
+        k = 0
+        for n in ast.walk(fn):
+            if not isinstance(n, ast.Assign):
+                continue
+            calls = [c for c in ast.walk(n.value) if is_split(c)]
+            if not calls:
+                continue
+            t = n.targets[0]
+            if isinstance(t, ast.Name) and is_split(n.value):
+                S = t.id
+                # the uses of S: the statements that follow the assignment in its own block (the name may be re-used elsewhere in a long function)
+                block = next((b for p_ in ast.walk(fn) for f_ in ("body", "orelse", "finalbody") for b in [getattr(p_, f_, None)] if isinstance(b, list) and n in b), [n])
+                scope = ast.Module(body=block[block.index(n) + 1:], type_ignores=[])
+                joined = any(isinstance(c, ast.Call) and isinstance(c.func, ast.Attribute) and c.func.attr == "join" and isinstance(c.func.value, ast.Constant) and c.func.value.value == "="
+                             and c.args and ast.unparse(c.args[0]) == f"{S}[1:]" for c in ast.walk(scope))
+                single = [ast.unparse(x) for x in ast.walk(scope) if isinstance(x, ast.Subscript) and isinstance(x.value, ast.Name) and x.value.id == S
+                          and not isinstance(x.slice, ast.Slice) and ast.unparse(x.slice) not in ("0",)]
+                ok, why = joined and not single, f"joined back: {joined}; single pieces read: {single}"
+            else:
+                ok, why = False, "the result is sliced / unpacked at once"
+            r = OR(id=f"{prop}.S.operands.{fn.name}.value_after_the_first_equals_sign.site{k}", status=PROVED if ok else REFUTED, kind="S", role="post", backend="ast", target=f"{module}.{fn.name}",
+                   desc=f"`{ast.unparse(n)[:80]}` (line {n.lineno}): the value is everything after the first top-level `=` ({why})")
+            if not ok:
+                r.witness = {"assignment": ast.unparse(n), "line": n.lineno}
+                r.detail = "a value that holds a relational operator is cut at that operator"
+                if replay:
+                    r.replay = replay()
+            out.append(r)
+            k += 1
+    if not out:
+        out.append(OR(id=f"{prop}.S.operands.value.anchor", status=UNKNOWN, kind="S", target=module, detail="no paren_split('=', ..) found"))
+    return out
